@@ -849,3 +849,27 @@ func (p *Program) StaticCallers(fn *ssa.Function) []ssa.CallInstruction {
 	}
 	return p.callers[fn]
 }
+
+// GlobalName is the short name ("pkg.var") of a package-level variable.
+func (p *Program) GlobalName(g *ssa.Global) string { return globalName(p, g) }
+
+// GlobalStores returns the stores to a package-level variable in its
+// package's initialiser.
+func (p *Program) GlobalStores(g *ssa.Global) []*ssa.Store {
+	var out []*ssa.Store
+	if g.Pkg == nil {
+		return nil
+	}
+	for _, m := range g.Pkg.Members {
+		f, ok := m.(*ssa.Function)
+		if !ok || f.Name() != "init" {
+			continue
+		}
+		Instrs(f, func(in ssa.Instruction) {
+			if st, ok := in.(*ssa.Store); ok && st.Addr == ssa.Value(g) {
+				out = append(out, st)
+			}
+		})
+	}
+	return out
+}
